@@ -230,7 +230,26 @@ func genCtlFiles(t *rapid.T, controlText string) []TarFile {
 	k := rapid.IntRange(0, len(others)).Draw(t, "nothers")
 	perm := rapid.Permutation(others).Draw(t, "othersperm")[:k]
 	pos := rapid.IntRange(0, k).Draw(t, "ctlpos")
-	files = append(files, perm[:pos]...)
+	before := append([]TarFile{}, perm[:pos]...)
+	if rapid.IntRange(0, 5).Draw(t, "straddle") == 0 {
+		// a large maintainer file in front, sized so that the body of ./control straddles the 32 KiB or
+		// 64 KiB mark of the decompressed stream (where gzip/lzma/bzip2 readers return short reads)
+		mark := rapid.SampledFrom([]int{32768, 32768, 65536}).Draw(t, "straddleMark")
+		back := 512 * rapid.IntRange(1, 2).Draw(t, "straddleBack")
+		p := 0
+		for _, f := range files {
+			p += 512 + (len(f.Content)+511)/512*512
+		}
+		for _, f := range before {
+			p += 512 + (len(f.Content)+511)/512*512
+		}
+		if fsize := mark - back - 512 - 512 - p; fsize >= 0 {
+			pat := []byte("0123456789abcdef0123456789abcdef  usr/share/doc/pkg/some-file\n")
+			filler := bytes.Repeat(pat, fsize/len(pat)+1)[:fsize]
+			before = append([]TarFile{{Name: prefix + "md5sums.big", Type: "reg", Content: filler}}, before...)
+		}
+	}
+	files = append(files, before...)
 	files = append(files, TarFile{Name: prefix + "control", Type: "reg", Content: []byte(controlText)})
 	files = append(files, perm[pos:]...)
 	return files
